@@ -92,8 +92,7 @@ func (c *Ctx) describeInputs(fn *ssa.Function, params []Val, entry *State) *inpu
 			n.Len = &inNode{Name: name + ".len", Type: types.Typ[types.Int], Term: mk(SInt, "(s.len "+term.S+")"), Idx: -1}
 			n.Len.Idx = addW(n.Len.Term)
 			if depth < 3 {
-				es := c.sortOf(u.Elem())
-				arr := tSelect(c.heapGet(entry, c.elemName(es)), mk(SInt, "(s.arr "+term.S+")"))
+				arr := tSelect(c.heapGet(entry, c.elemNameT(u.Elem())), mk(SInt, "(s.arr "+term.S+")"))
 				for k := 0; k < 3; k++ {
 					et := tSelect(arr, mk(SInt, fmt.Sprintf("(sidx %s %d)", term.S, k)))
 					n.Elems = append(n.Elems, build(fmt.Sprintf("%s[%d]", name, k), u.Elem(), et, depth+1))
